@@ -64,7 +64,7 @@ func myInsertStmt(names []string, id int, plain string, vals []string, cols []co
 
 func myColWorld(w *kernel.World, plan *kernel.Plan, rng *kernel.RNG, cols []colKind) (*PgWorld, []string, error) {
 	pw, err := NewPgWorld(w, rng, PgWorldConfig{SchemaYAML: schemaYAML(cols), Clients: []string{owner, stranger}, ChunkMode: int(plan.Sw("chunk")),
-		MySQL: true, MyDeprecateEOF: plan.Sw("depeof") == 1})
+		MySQL: true, MyDeprecateEOF: plan.Sw("depeof") == 1, KeyFaultNth: int(plan.Sw("keyfault"))})
 	if err != nil {
 		return nil, nil, err
 	}
@@ -191,7 +191,11 @@ func c04MySQL(t *testing.T, plan *kernel.Plan, keepLog bool) *kernel.Result {
 		for _, p := range pw.Panics {
 			w.Violate("C14", "no-panic", "mysql/proxy", p)
 		}
-		if run.Stuck || run.ClientErr != "" {
+		keyFault := pw.KeyFaultFired()
+		if keyFault {
+			w.Res.Fired["keystore-io-error"]++
+		}
+		if (run.Stuck || run.ClientErr != "") && !keyFault {
 			w.Violate("C04", "session-makes-progress", "mysql", fmt.Sprintf("stuck=%v after %d deliveries; client error %q; proxy errors %v", run.Stuck, run.Steps, run.ClientErr, run.ProxyErrs))
 			return
 		}
@@ -203,6 +207,28 @@ func c04MySQL(t *testing.T, plan *kernel.Plan, keepLog bool) *kernel.Result {
 					break
 				}
 			}
+		}
+		if keyFault {
+			// see the PostgreSQL variant: only "nothing protected in clear to the database" and "no other row's value"
+			for i, st := range script {
+				res := run.Results[i]
+				if !strings.HasPrefix(st.Tag, "final:") || res.Err != "" || len(res.Rows) != 1 || len(res.Rows[0]) != len(colNames) {
+					continue
+				}
+				var id int
+				fmt.Sscanf(st.Tag[6:], "%d", &id)
+				for ci, c := range cols {
+					for _, other := range rows {
+						if other.id != id && len(other.vals[ci]) >= 8 && string(res.Rows[0][2+ci]) == other.vals[ci] {
+							w.Violate("C04", "owner-reads-original", "mysql/keystore-fault/"+c.describe(), fmt.Sprintf("row %d column %s came back as row %d's value", id, c.Name, other.id))
+						}
+					}
+				}
+			}
+			w.Probe("keystore-fault-session")
+			w.State(fmt.Sprintf("mysql cols=%v rows=%d keyfault", len(cols), len(rows)))
+			w.Res.SimNanos = int64(time.Since(start))
+			return
 		}
 		sawPlain := false
 		for _, s := range pw.DB.Statements {
